@@ -13,16 +13,16 @@ Import ListNotations.
    outermost lock has already been taken once during this API call *)
 Definition lstate := (nat * bool)%type.
 Inductive outcome := Normal | Ret | Brk | Cont.
-Inductive event := EvAcc (d:nat) (mutable:bool).
+Inductive event := EvAcc (d:nat) (mutable:bool) | EvLock | EvUnlock.
 
 (* every path through the statement: branch conditions and loop counts are unconstrained *)
 Inductive exec : stmt -> lstate -> list event -> outcome -> lstate -> Prop :=
 | xSkip a : exec Skip a [] Normal a
-| xLock0 : exec SLock (0,false) [] Normal (1,true)
-| xLock0' : exec SLock (0,true) [] Normal (1,true)          (* second critical section: allowed to run, flagged by the checker *)
-| xLockS d e : exec SLock (S d, e) [] Normal (S (S d), e)
-| xUnlock d e : exec SUnlock (S d, e) [] Normal (d, e)
-| xUnlock0 e : exec SUnlock (0, e) [] Normal (0, e)         (* unlock without lock: runs (macro tolerates it), flagged by the checker *)
+| xLock0 : exec SLock (0,false) [EvLock] Normal (1,true)
+| xLock0' : exec SLock (0,true) [EvLock] Normal (1,true)          (* second critical section: allowed to run, flagged by the checker *)
+| xLockS d e : exec SLock (S d, e) [EvLock] Normal (S (S d), e)
+| xUnlock d e : exec SUnlock (S d, e) [EvUnlock] Normal (d, e)
+| xUnlock0 e : exec SUnlock (0, e) [EvUnlock] Normal (0, e)         (* unlock without lock: runs (macro tolerates it), flagged by the checker *)
 | xAcc d e m : exec (Acc m) (d,e) [EvAcc d m] Normal (d,e)
 | xCallFree d e m : exec (CallFree m) (d,e) [EvAcc d m] Normal (d,e)
 | xCallN b a tr a' : exec b a tr Normal a' -> exec (CallInl b) a tr Normal a'
@@ -94,7 +94,7 @@ Fixpoint chk (s:stmt) (a:lstate) : option exits :=
   end.
 
 Definition sel (o:outcome) (x:exits) := match o with Normal => eN x | Ret => eR x | Brk => eB x | Cont => eC x end.
-Definition ev_ok (e:event) := match e with EvAcc d m => m = true -> d > 0 end.
+Definition ev_ok (e:event) := match e with EvAcc d m => m = true -> d > 0 | _ => True end.
 
 Lemma eqst_eq a b : eqst a b = true -> a = b.
 Proof. destruct a, b; unfold eqst; cbn. intros H. apply andb_prop in H as [H1 H2].
@@ -134,10 +134,10 @@ Theorem chk_sound s a tr o a' : exec s a tr o a' ->
 Proof.
   induction 1; intros x Hx; cbn in Hx.
   - inversion Hx; subst; cbn; auto.
-  - inversion Hx; subst; cbn; auto.
-  - destruct strict; [discriminate|]. inversion Hx; subst; cbn; auto.
-  - inversion Hx; subst; cbn; auto.
-  - inversion Hx; subst; cbn; auto.
+  - inversion Hx; subst; cbn. split; [auto|intros _; repeat constructor].
+  - destruct strict; [discriminate|]. inversion Hx; subst; cbn. split; [auto|intros _; repeat constructor].
+  - inversion Hx; subst; cbn. split; [auto|intros _; repeat constructor].
+  - inversion Hx; subst; cbn. split; [auto|intros _; repeat constructor].
   - discriminate.
   - destruct (strict && m && Nat.eqb d 0) eqn:E; [discriminate|]. inversion Hx; subst; cbn. split; auto.
     intros St. constructor; auto. cbn. intros ->. rewrite St in E. cbn in E. destruct d; [discriminate|lia].
@@ -225,6 +225,62 @@ Proof. unfold balanced. destruct (chk body (0,false)) as [x|] eqn:E; [|discrimin
   - split; auto. split; auto. apply Nat.eqb_eq, H1, in_or_app; auto.
 Qed.
 End Checker.
+
+(* ---- the discipline of one path, as a property of its event trace ---- *)
+(* twl a tr: replay the lock and access events of a path from lock state a; None = the discipline is broken somewhere *)
+Fixpoint twl (a:lstate) (tr:list event) : option lstate :=
+  match tr with
+  | [] => Some a
+  | EvLock :: r => match a with (0, true) => None | (0, false) => twl (1, true) r | (S d, e) => twl (S (S d), e) r end
+  | EvUnlock :: r => match a with (0, _) => None | (S d, e) => twl (d, e) r end
+  | EvAcc _ m :: r => if m && Nat.eqb (fst a) 0 then None else twl a r
+  end.
+Lemma twl_app a tr1 tr2 : twl a (tr1 ++ tr2) = match twl a tr1 with Some a1 => twl a1 tr2 | None => None end.
+Proof. revert a. induction tr1 as [|ev r IH]; intros a; [reflexivity|]. cbn [app twl]. destruct ev as [d m| |].
+  - destruct (m && Nat.eqb (fst a) 0); [reflexivity|apply IH].
+  - destruct a as [[|d] [|]]; try reflexivity; apply IH.
+  - destruct a as [[|d] e]; [reflexivity|apply IH]. Qed.
+(* every path the strict checker accepts replays without breaking the discipline and ends in the state exec says *)
+Theorem exec_twl s a tr o a' : exec s a tr o a' -> forall x, chk true s a = Some x -> twl a tr = Some a'.
+Proof.
+  induction 1; intros x Hx; cbn in Hx.
+  - reflexivity.
+  - reflexivity.
+  - discriminate.
+  - reflexivity.
+  - reflexivity.
+  - discriminate.
+  - cbn [twl fst]. destruct (m && Nat.eqb d 0); [discriminate|reflexivity].
+  - cbn [twl fst]. destruct (m && Nat.eqb d 0); [discriminate|reflexivity].
+  - destruct (chk true b a) as [y|] eqn:E; [|discriminate]. eauto.
+  - destruct (chk true b a) as [y|] eqn:E; [|discriminate]. eauto.
+  - destruct (chk true s1 a) as [y|] eqn:E; [|discriminate].
+    destruct (chk_sound true _ _ _ _ _ H _ E) as [Hin1 _]. cbn in Hin1.
+    destruct (go_spec true s2 _ _ _ Hx) as [_ Hall]. destruct (Hall _ Hin1) as (y2 & Hy2 & _).
+    rewrite twl_app, (IHexec1 _ eq_refl). eauto.
+  - destruct (chk true s1 a) as [y|] eqn:E; [|discriminate]. eauto.
+  - destruct (chk true s1 a) as [y1|] eqn:E1; [|discriminate]. eauto.
+  - destruct (chk true s1 a) as [y1|] eqn:E1; [|discriminate]. destruct (chk true s2 a) as [y2|] eqn:E2; [|discriminate]. eauto.
+  - reflexivity.
+  - destruct (chk true b a) as [y|] eqn:E; [|discriminate].
+    destruct (all_eq a (eN y) && all_eq a (eC y)) eqn:EA; [|discriminate]. apply andb_prop in EA as [EN EC].
+    destruct (chk_sound true _ _ _ _ _ H _ E) as [Hin1 _]. cbn in Hin1.
+    assert (a1 = a) by exact (all_eq_in _ _ _ EN Hin1). subst a1.
+    assert (Hx2: chk true (Loop b) a = Some x) by (cbn; rewrite E, EN, EC; exact Hx).
+    rewrite twl_app, (IHexec1 _ eq_refl). eauto.
+  - destruct (chk true b a) as [y|] eqn:E; [|discriminate].
+    destruct (all_eq a (eN y) && all_eq a (eC y)) eqn:EA; [|discriminate]. apply andb_prop in EA as [EN EC].
+    destruct (chk_sound true _ _ _ _ _ H _ E) as [Hin1 _]. cbn in Hin1.
+    assert (a1 = a) by exact (all_eq_in _ _ _ EC Hin1). subst a1.
+    assert (Hx2: chk true (Loop b) a = Some x) by (cbn; rewrite E, EN, EC; exact Hx).
+    rewrite twl_app, (IHexec1 _ eq_refl). eauto.
+  - destruct (chk true b a) as [y|] eqn:E; [|discriminate]. eauto.
+  - destruct (chk true b a) as [y|] eqn:E; [|discriminate]. eauto.
+  - reflexivity.
+  - reflexivity.
+  - reflexivity.
+  - discriminate.
+Qed.
 
 (* C14: lock depth on every path;  C13: additionally no access to mutable state outside the lock, one critical section *)
 Definition lock_balanced (body : stmt) : bool := balanced false body.
